@@ -356,6 +356,51 @@ pub fn run(ctx: &mut Ctx) -> (&'static str, String, bool) {
             }
         }
     }
+    // ---- the public detection helper itself: Packet::maybe_pong on every TINY and on every other kind ----------
+    {
+        use crate::corpus::{real_decode, real_encode, Dec, Enc};
+        let mut p = Part::new();
+        let mut r = base_rng.fork(7070);
+        let mut judge_one = |frame: &[u8], what: &str, p: &mut Part| {
+            let Dec::Packet(pk, _) = real_decode(frame, true) else { return };
+            p.evaluations += 1;
+            p.distinct(&("maybe_pong", frame));
+            let want = is_keepalive_frame(frame);
+            match crate::ctx::guarded(|| pk.maybe_pong()) {
+                Ok(Some(reply)) => {
+                    let bytes = match real_encode(&reply, true) {
+                        Enc::Ok(b) => b,
+                        _ => vec![],
+                    };
+                    if !want {
+                        p.violation("C07/maybe-pong/reply-to-non-keepalive", format!("maybe_pong() offers a reply to {what} ({})", hex(&frame[..frame.len().min(8)])), json!({"frame": hex(frame)}));
+                    } else if bytes != reply_frame(true) {
+                        p.violation("C07/maybe-pong/reply-is-not-tiny-none", format!("maybe_pong() answers a keep-alive with {}", hex(&bytes)), json!({"frame": hex(frame)}));
+                    }
+                },
+                Ok(None) => {
+                    if want {
+                        p.violation("C07/maybe-pong/keepalive-not-recognised", "maybe_pong() offers no reply to TINY_NONE with request id 0".to_string(), json!({"frame": hex(frame)}));
+                    }
+                },
+                Err(pn) => p.violation("C07/maybe-pong/panic", format!("maybe_pong() panicked on {what}: {pn}"), json!({"frame": hex(frame)})),
+            }
+        };
+        for subt in 0u16..256 {
+            for reqi in 0u16..256 {
+                judge_one(&[1, 3, reqi as u8, subt as u8], &format!("TINY sub-type {subt} request id {reqi}"), &mut p);
+            }
+        }
+        for lay in c.kinds() {
+            for _ in 0..4 {
+                let o = GenOpts { text: TextMode::Ascii, max_list: Some(2), boundary: 6, hostile: false };
+                if let Some((_, f)) = c.ref_frame(&mut r, lay, &o, true) {
+                    judge_one(&f, &format!("a {} packet", lay.name), &mut p);
+                }
+            }
+        }
+        ctx.merge(p);
+    }
     ctx.assume("a keep-alive is the 4-byte frame type 3, ReqI 0, SubT 0; the reply is observed as bytes accepted by the scripted transport between two consecutive read returns");
     (
         "exploration",
